@@ -7,6 +7,7 @@ import Driver.TmplData
 import Driver.Retry
 import Driver.Gossip
 import Driver.Mesh
+import Driver.TlsFrame
 -- engines of work area Limits: import your Driver.<Engine> modules above and list them here
 namespace Driver.Reg.Limits
 def engines : List (String × IO UInt32) := [
@@ -17,6 +18,7 @@ def engines : List (String × IO UInt32) := [
   ("tmpldata", Driver.runEngine Driver.TmplData.engine),
   ("retry", Driver.runEngine Driver.Retry.engine),
   ("gossip", Driver.runEngine Driver.Gossip.engine),
-  ("mesh", Driver.runEngine Driver.Mesh.engine)
+  ("mesh", Driver.runEngine Driver.Mesh.engine),
+  ("tlsframe", Driver.runEngine Driver.TlsFrame.engine)
 ]
 end Driver.Reg.Limits
